@@ -156,7 +156,7 @@ def run(tier, seed, which="C16"):
         for h in sorted(live):
             lines.append("free %d" % h)
         variant = "san" if (H.get("long") or hi % 8 == 0) else "rel"
-        tp, rc, err = kv.run_kvdrive("\n".join(lines) + "\n", hwd, "t", variant=variant, timeout=300)
+        tp, rc, err = kv.run_kvdrive("\n".join(lines) + "\n", hwd, "t", variant=variant, leaks=(variant == "san"), timeout=300)
         ev = kv.read_trace(tp)
         out = []
         for k, c in enumerate(H["hist"]):
